@@ -21,7 +21,7 @@ def lattice(tier: str, what: str = "c01") -> List[Cfg]:
     cfgs: List[Cfg] = []
     if tier == "quick":
         stats_list = [(), ("a", "ab")]
-        packs = ["base", "norm+sym", "inf2", "rfac", "ver:a,b", "sfac"]
+        packs = ["base", "norm+sym", "inf2", "rfac", "ver:a,b", "sfac", "norm+atomlast"]
         for c in classes:
             for st in stats_list:
                 for pk in packs:
@@ -40,7 +40,7 @@ def lattice(tier: str, what: str = "c01") -> List[Cfg]:
         packs = [
             "base", "norm", "sym", "norm+sym", "inf1", "inf2", "inf2r", "norm+inf2+sym", "rfac", "sfac",
             "two", "noinit", "dropempty", "ver:a,b", "ver:e", "verfirst:a,ab", "rfac+sym", "inf1+rfac",
-            "ver:a,b+sym", "ver:b+inf2", "norm+two", "sfac+inf1",
+            "ver:a,b+sym", "ver:b+inf2", "norm+two", "sfac+inf1", "norm+atomlast", "atomlast+sym",
         ]
         for c in classes:
             for st in stats_list:
@@ -66,7 +66,33 @@ def lattice(tier: str, what: str = "c01") -> List[Cfg]:
                 for pk in ("base", "norm+sym", "inf2", "rfac"):
                     for db in DBS:
                         cfgs.append(Cfg.of(c.with_(stats=st), pk, db))
+    cfgs.extend(g_lattice(tier))
     return cfgs
+
+
+def g_lattice(tier: str) -> List[Any]:
+    """Search configurations over the G-domain."""
+    from mc import domain_g as dg
+    from mc.search import GCfg
+
+    res: List[Any] = []
+    if tier == "quick":
+        for g in dg.grammars("one"):
+            for db in ("RuleDB", "Forest"):
+                res.append(GCfg(g, (), "g", db))
+    else:
+        for g in dg.grammars("one"):
+            for st in ((), ("a",), ("a", "ab")):
+                for db in DBS:
+                    res.append(GCfg(g, st, "g", db))
+            res.append(GCfg(g, (), "g+split", "RuleDB"))
+            res.append(GCfg(g, (), "g", "RuleDB", smallest=True))
+            res.append(GCfg(g, (), "g+iter", "RuleDB"))
+        for g in dg.grammars("two"):
+            for db in ("RuleDB", "Forest", "ForestNR"):
+                res.append(GCfg(g, (), "g", db))
+            res.append(GCfg(g, ("a",), "g", "Forest"))
+    return res
 
 
 def budgets_for(tier: str) -> Dict[str, int]:
